@@ -570,7 +570,9 @@ type obs struct {
 	Written bool
 }
 
-func (o obs) String() string { return fmt.Sprintf("Status=%d Size=%d Written=%v", o.Status, o.Size, o.Written) }
+func (o obs) String() string {
+	return fmt.Sprintf("Status=%d Size=%d Written=%v", o.Status, o.Size, o.Written)
+}
 
 type feats struct {
 	readFrom, partial, failingSource, emptySource, headerAfterBody, repeatedFinal, info, switching, flushFirst, capCall bool
@@ -986,11 +988,11 @@ func reducedAlphabet() []Call {
 	}
 	if !noReadFrom {
 		a = append(a,
-			Call{Op: opReadFrom, Data: "efgh"},                      // source never fails
+			Call{Op: opReadFrom, Data: "i", Fail: true},             // fails after 1 byte
 			Call{Op: opReadFrom, Data: ""},                          // empty source
 			Call{Op: opReadFrom, Data: "", Fail: true},              // fails after 0 bytes
-			Call{Op: opReadFrom, Data: "i", Fail: true},             // fails after 1 byte
 			Call{Op: opReadFrom, Data: "jkl", Fail: true, Chunk: 2}, // fails after 3 bytes
+			Call{Op: opReadFrom, Data: "efgh"},                      // never fails (the writer may)
 		)
 	}
 	return a
